@@ -1582,6 +1582,15 @@ def gen_arm_part(rng, N, pattern, form=None, focus=True):
         for j in range(n_arms):
             cur = {x: list(v) for x, v in base.items()}
             arm, wr, rd, force = [], set(), set(), []
+            if form == "try-except" and j == 0 and rng.random() < 0.6:
+                # the try arm always runs: a constant remove there must be forgotten AFTER the statement
+                x = rng.choice([0, 1])
+                cand = [v for v in cur[x] if v not in cs]
+                if cand and len(cur[x]) >= 2:
+                    v = rng.choice(cand)
+                    arm.append([4, x, v])
+                    cur[x].remove(v)
+                    wr.add(x)
             for _ in range(rng.choice([0, 1, 1, 2, 3])):
                 x = rng.choice([0, 1])
                 r = rng.random()
@@ -1691,6 +1700,11 @@ def gen_arm_part(rng, N, pattern, form=None, focus=True):
                 if not sg and k < 0:
                     continue
                 post.append([14, x, y, 1 if sg else 0, k])
+        if taken < n_arms:
+            # a list the taken arm SHRANK: its last element is read after the statement (a length kept from before would be too long)
+            for x in sorted({s_[1] for s_ in arms[taken] if s_[0] in (4, 13)}):
+                if cur[x] and (form == "try-except" or rng.random() < 0.6):
+                    post.append([14, x, x, 1, -1])
         # a balanced main loop over the lists as the taken arm left them
         body = []
         r = rng.random()
